@@ -42,7 +42,7 @@ def cases(draw):
             hist.append(["g", draw(st.sampled_from(HIST_G))])
         elif k == "in":
             tx, ty = rnd.target("in", draw(st.integers(0, 3)), draw(st.integers(0, 100)), draw(st.integers(0, 100)))
-            hist.append(["g", "G1 X%s Y%s" % (gen.fmt(tx), gen.fmt(ty))])
+            hist.append(["g", "G1 X%s Y%s%s" % (gen.fmt(tx), gen.fmt(ty), draw(st.sampled_from(["", "", " E-1", " E3", " Z2"])))])
         elif k == "event":
             hist.append(["event", draw(st.sampled_from(EVENTS))])
         elif k == "at":
